@@ -212,6 +212,19 @@ pub struct World {
 #[salsa::db]
 impl salsa::Database for World {}
 
+impl World {
+    /// Turns this handle into a bare `StorageHandle` and back into a database: the thread-local
+    /// state of the old handle (its partly filled pages) is handed back to the shared table.
+    pub fn rehandle(self) -> World {
+        let World { storage, ctx } = self;
+        let h = storage.into_zalsa_handle();
+        World {
+            storage: h.into_storage(),
+            ctx,
+        }
+    }
+}
+
 #[salsa::db]
 impl Hdb for World {
     fn ctx(&self) -> &Arc<Ctx> {
@@ -266,7 +279,20 @@ impl World {
         let storage = salsa::Storage::new(Some(Box::new(move |event: salsa::Event| {
             let ev = map_event(&event);
             c2.fault.step_event(&c2, &ev);
+            let slow = matches!(
+                ev,
+                Ev::WillDiscardStaleOutput(..)
+                    | Ev::DidDiscard(_)
+                    | Ev::DidDiscardAccumulated(_)
+                    | Ev::DidReuseInterned(..)
+                    | Ev::DidIntern(..)
+                    | Ev::DidValidateInterned(..)
+            );
             c2.log.push(Rec::Ev(ev));
+            if slow {
+                // the event callback is user code: it may be slow (concurrent engines only)
+                crate::failpoint::event_delay(&c2);
+            }
         })));
         let w = World { storage, ctx };
         let n = w.ctx.prog.nodes.len();
@@ -394,14 +420,30 @@ pub fn q_multi<'db>(db: &'db dyn Hdb, k: NodeKey, arg: u16) -> V {
     body_node(db, FnK::Multi, k, arg)
 }
 
+/// Result of a maker: the structs it created. `PartialEq` is user code salsa runs when it decides
+/// whether to backdate the maker, hence a fault-injection site (before the comparison, so that it
+/// is reached even when the number of structs changed).
+#[derive(Clone, salsa::SalsaValue)]
+pub struct MakerOut<'db> {
+    pub ents: Vec<Ent<'db>>,
+}
+
+impl PartialEq for MakerOut<'_> {
+    fn eq(&self, other: &Self) -> bool {
+        crate::sink::fault_step(crate::fault::FSite::Eq);
+        self.ents == other.ents
+    }
+}
+impl Eq for MakerOut<'_> {}
+
 #[salsa::tracked]
-pub fn q_maker<'db>(db: &'db dyn Hdb, k: NodeKey) -> Vec<Ent<'db>> {
-    body_maker(db, k)
+pub fn q_maker<'db>(db: &'db dyn Hdb, k: NodeKey) -> MakerOut<'db> {
+    MakerOut { ents: body_maker(db, k) }
 }
 
 #[salsa::tracked(lru = 1)]
-pub fn q_maker_lru<'db>(db: &'db dyn Hdb, k: NodeKey) -> Vec<Ent<'db>> {
-    body_maker(db, k)
+pub fn q_maker_lru<'db>(db: &'db dyn Hdb, k: NodeKey) -> MakerOut<'db> {
+    MakerOut { ents: body_maker(db, k) }
 }
 
 /// The structs of maker node `n` (plain or lru-declared maker).
@@ -409,9 +451,9 @@ pub fn maker_vec<'db>(db: &'db dyn Hdb, n: usize) -> &'db Vec<Ent<'db>> {
     let ctx = db.ctx();
     let k = ctx.keys.get().unwrap()[n];
     if ctx.prog.nodes[n].lru_maker {
-        q_maker_lru(db, k)
+        &q_maker_lru(db, k).ents
     } else {
-        q_maker(db, k)
+        &q_maker(db, k).ents
     }
 }
 
@@ -935,6 +977,24 @@ fn eval<'db>(db: &'db dyn Hdb, e: &Expr, cx: &Cx<'db>) -> u16 {
                 (r & g) | g
             } else {
                 c | g
+            }
+        }
+        Expr::PeekNZ(n, m, g) => {
+            let c = call_node(db, *n, 0);
+            ctx.log.push(Rec::Read(
+                ReadK::Call(fnk_of(ctx.prog.nodes[*n].kind), *n as u32, 0),
+                c,
+            ));
+            let g = eval(db, g, cx);
+            if c != 0 {
+                let r = call_node(db, *m, 0);
+                ctx.log.push(Rec::Read(
+                    ReadK::Call(fnk_of(ctx.prog.nodes[*m].kind), *m as u32, 0),
+                    r,
+                ));
+                c | r | g
+            } else {
+                g
             }
         }
         Expr::Acc(e) => {
